@@ -365,6 +365,9 @@ def run (conf : Conf) (c : Chan) : List Op → Chan
   | [] => c
   | op :: ops => run conf (step conf c op).1 ops
 
+/-- the `Attempts` field on the wire and on disk is a `uint16` -/
+def wireAttempts (a : Nat) : Nat := a % 65536
+
 /-- is a delivery still enabled? (used at `settle` barriers: the implementation must not
 under-deliver) -/
 def deliverEnabled (c : Chan) : Bool :=
